@@ -16,8 +16,61 @@ def showDec : Dec → String
 
 def showSlots (v : List Int) : String := ",".intercalate (v.map toString)
 
+/-- A driver.Value on the wire: `n` nil, `s<hex>` string, `b<hex>` []byte, `i<int>` int64, `o` anything else. -/
+def parseSrc (w : String) : Option Src :=
+  match w.toList with
+  | ['n'] => some .null
+  | ['o'] => some .other
+  | 's' :: r => (toBytes (String.ofList r)).map .str
+  | 'b' :: r => (toBytes (String.ofList r)).map .bytes
+  | 'i' :: r => (String.ofList r).toInt?.map .int
+  | _ => none
+
+/-- A Digest receiver on the wire: `-` is the zero Digest, otherwise the text of a valid digest. -/
+def parseRecv (w : String) : Option (Option Digest) :=
+  if w == "-" then some none else
+  match toBytes w with
+  | some t => match digestParse t with
+    | some d => some (some d)
+    | none => none
+  | none => none
+
+def showDigest : Option Digest → String
+  | none => "zero"
+  | some d => s!"{hexB d.algo} {hexB d.checksum} {hexB (digestRepr d)}"
+
+def showRecv (r : Option Digest × Bool) : String :=
+  (if r.2 then "ok " else "err ") ++ showDigest r.1
+
 def answer (l : String) : String :=
   match Driver.words l with
+  | ["sev-scan", w] => match parseSrc w with
+      | some src => showDec (enumScan (severityUnmarshal severityNameBytes severityIndex) severityIndex src)
+      | none => "bad-op"
+  | ["arch-scan", w] => match parseSrc w with
+      | some src => showDec (enumScan (archOpUnmarshal archOpNameBytes archOpIndex) archOpIndex src)
+      | none => "bad-op"
+  | ["pk-un", h] => match toBytes h with
+      | some t => showDec (archOpUnmarshal packageKindNameBytes packageKindIndex t)
+      | none => "bad-op"
+  | ["pk-m", n] => match n.toNat? with
+      | some k => match enumMarshal packageKindNameBytes packageKindIndex k with
+        | some t => hexB t
+        | none => "none"
+      | none => "bad-op"
+  | ["dig-scan", o, w] => match parseRecv o, parseSrc w with
+      | some old, some src => showRecv (digestScan old src)
+      | _, _ => "bad-op"
+  | ["dig-unx", o, h] => match parseRecv o, toBytes h with
+      | some old, some t => showRecv (digestUnmarshal old t)
+      | _, _ => "bad-op"
+  | ["ver-unx", ha, hb] => match toBytes ha, toBytes hb with
+      | some a, some b => match versionUnmarshal Version.zero a with
+        | none => "bad-op"
+        | some v1 =>
+          let r := versionUnmarshalX v1 b
+          s!"{if r.2 then "ok" else "err"} {hexB r.1.kind} {showSlots r.1.v}"
+      | _, _ => "bad-op"
   | ["sev-un", h] => match toBytes h with
       | some t => showDec (severityUnmarshal severityNameBytes severityIndex t)
       | none => "bad-op"
